@@ -24,4 +24,9 @@ static int native_plane_set = (symns::natives ()["Plane3.setPoints"] = symns::Na
     [] (const std::vector<float>& a) { return nativeSetPoints<float> (a); }}, 0);
 using namespace IMATH_INTERNAL_NAMESPACE;
 #include "ops_c15b.h"
-int main (int argc, char** argv) { return symns::sym_main (argc, argv); }
+#include "c15_modes.h" // extra modes ratstep / leafinfo used by tools/props/c15.py; every other mode is sym_main's
+int main (int argc, char** argv)
+{
+    int rc = c15modes::extra_main (argc, argv);
+    return rc >= 0 ? rc : symns::sym_main (argc, argv);
+}
